@@ -17,6 +17,11 @@ def main():
         mod = importlib.import_module(a.pid.lower())
         if a.replay:
             data = json.load(open(a.replay))
+            # inputs regenerated from the seed depend on the tier and seed of the run that recorded them
+            if data.get("tier") in ("quick", "thorough"):
+                ctx.tier = data["tier"]
+            if isinstance(data.get("seed"), int):
+                ctx.seed = data["seed"]
             vs = mod.replay(ctx, data["replay"])
             for v in vs:
                 print(f"REPRODUCED {v.sig}: {v.what}")
